@@ -578,6 +578,20 @@ impl ZmtpEngine {
         .get("Identity")
         .map(|v| Blob::from(v.clone()));
 
+      // Same compatibility verdict as the ZMTP/2.0 greeting path.
+      if let Some(ref peer_type) = peer_socket_type {
+        if !socket_types_compatible(self.config.socket_type_name.as_str(), peer_type) {
+          self.phase = ZmtpPhase::Closed;
+          out
+            .app_actions
+            .push(AppAction::PeerError(ZmqError::ProtocolViolation(format!(
+              "Incompatible socket types: local {} <-> peer {}",
+              self.config.socket_type_name, peer_type
+            ))));
+          return;
+        }
+      }
+
       if self.is_server {
         // Server received client READY → send server READY then complete.
         self.emit_local_ready(out);
@@ -785,30 +799,7 @@ impl ZmtpEngine {
       ZmqError::ProtocolViolation(format!("v2 peer used unknown socket-type byte {:#04x}", peer_byte))
     })?;
     let own = self.config.socket_type_name.as_str();
-    let ok = matches!(
-      (own, peer_byte),
-      ("PULL", V2_SOCKET_TYPE_PUSH)
-        | ("PUSH", V2_SOCKET_TYPE_PULL)
-        | ("PUB", V2_SOCKET_TYPE_SUB)
-        | ("SUB", V2_SOCKET_TYPE_PUB)
-        | ("PUB", V2_SOCKET_TYPE_XSUB)
-        | ("XSUB", V2_SOCKET_TYPE_PUB)
-        | ("XPUB", V2_SOCKET_TYPE_SUB)
-        | ("SUB", V2_SOCKET_TYPE_XPUB)
-        | ("XPUB", V2_SOCKET_TYPE_XSUB)
-        | ("XSUB", V2_SOCKET_TYPE_XPUB)
-        | ("REQ", V2_SOCKET_TYPE_REP)
-        | ("REP", V2_SOCKET_TYPE_REQ)
-        | ("REQ", V2_SOCKET_TYPE_ROUTER)
-        | ("ROUTER", V2_SOCKET_TYPE_REQ)
-        | ("REP", V2_SOCKET_TYPE_DEALER)
-        | ("DEALER", V2_SOCKET_TYPE_REP)
-        | ("DEALER", V2_SOCKET_TYPE_ROUTER)
-        | ("ROUTER", V2_SOCKET_TYPE_DEALER)
-        | ("DEALER", V2_SOCKET_TYPE_DEALER)
-        | ("ROUTER", V2_SOCKET_TYPE_ROUTER)
-        | ("PAIR", V2_SOCKET_TYPE_PAIR)
-    );
+    let ok = socket_types_compatible(own, peer_name);
     if !ok {
       return Err(ZmqError::ProtocolViolation(format!(
         "Incompatible ZMTP/2.0 sockets: local {} <-> peer {}",
@@ -868,6 +859,35 @@ impl ZmtpEngine {
 }
 
 // --- Module-level helpers ---
+
+/// The valid ZeroMQ socket-type pairings (RFC 28-33). One table for every protocol revision, so
+/// that a pair of socket types gets the same verdict over ZMTP/2.0 and ZMTP/3.x.
+fn socket_types_compatible(own: &str, peer: &str) -> bool {
+  matches!(
+    (own, peer),
+    ("PULL", "PUSH")
+      | ("PUSH", "PULL")
+      | ("PUB", "SUB")
+      | ("SUB", "PUB")
+      | ("PUB", "XSUB")
+      | ("XSUB", "PUB")
+      | ("XPUB", "SUB")
+      | ("SUB", "XPUB")
+      | ("XPUB", "XSUB")
+      | ("XSUB", "XPUB")
+      | ("REQ", "REP")
+      | ("REP", "REQ")
+      | ("REQ", "ROUTER")
+      | ("ROUTER", "REQ")
+      | ("REP", "DEALER")
+      | ("DEALER", "REP")
+      | ("DEALER", "ROUTER")
+      | ("ROUTER", "DEALER")
+      | ("DEALER", "DEALER")
+      | ("ROUTER", "ROUTER")
+      | ("PAIR", "PAIR")
+  )
+}
 
 fn local_mechanism_name_bytes(config: &ZmtpEngineConfig) -> &'static [u8; MECHANISM_LENGTH] {
   #[cfg(feature = "plain")]
